@@ -16,9 +16,24 @@ open BackupFS
 
 variable {cfg : Cfg}
 
+/-- what makes a view a filesystem tree (link-free): the root is a directory, parents of live keys
+are live directories, keys are made of real names, no symlinks, 12 mode bits, directory timestamps
+erased -/
+structure GoodView (v : View) : Prop where
+  root : v.isDirAt []
+  parent : ∀ {k}, v k ≠ none → k ≠ [] → v.isDirAt k.dropLast
+  pkey : ∀ {k}, v k ≠ none → PKey k
+  nolink : ∀ {k t mt}, v k ≠ some (.link t mt)
+  mode : ∀ {k n}, v k = some n → n.meta.mode < 4096
+  erased : ∀ {k mt}, v k = some (.dir mt) → mt.mtime = .fresh
+
+theorem Sim.goodView (S : Sim cfg) {m : MFS} (hg : S.G m) (s : Side) : GoodView (S.view s m) :=
+  ⟨S.root_dir hg, fun h hne => S.parent_dir hg h hne, fun h => S.pkey hg h, S.no_link hg,
+    fun h => S.mode_lt hg h, fun h => S.erased hg h⟩
+
 structure Inv (S : Sim cfg) (v0 : View) (w : World) : Prop where
   good : S.G w.fs
-  orig : ∃ m0, S.G m0 ∧ S.view .base m0 = v0
+  orig : GoodView v0
   keys : ∀ p oi, (p, oi) ∈ w.infos → ∃ k, PKey k ∧ p = kp k
   nodup : (w.infos.map Prod.fst).Nodup
   frame : ∀ k, PKey k → w.infos.lookup (kp k) = none → S.view .base w.fs k = v0 k
